@@ -37,7 +37,7 @@ pub fn run(ctx: &Ctx) -> ! {
         }
     }
     // (3) bisync --dry-run on the whole bisync state graph
-    let b = |u0: Vec<&'static str>, e: u8, m: u8| crate::e2::Bound { u0, e, m, state_cap: 2_500_000 };
+    let b = |u0: Vec<&'static str>, e: u8, m: u8| crate::e2::Bound { u0, e, m, state_cap: 2_500_000, decor: vec![] };
     let bounds = if thorough { vec![b(vec!["f"], 5, 2), b(vec!["f"], 3, 3), b(vec!["f", "d/g"], 3, 2), b(vec!["n.t", "n/t"], 3, 2)] } else { vec![b(vec!["f"], 3, 2), b(vec!["f", "d/g"], 2, 1), b(vec!["n.t", "n/t"], 2, 1)] };
     let (mut rep, bv) = crate::e2::explore(ctx, "C15", &bounds, 1);
     violations.extend(bv);
